@@ -268,7 +268,22 @@ func cmdCheck(args []string) {
 			o.NoPrune = true
 		}
 	}
-	DischargeAll(counted, dir, timeout, 6)
+	if *tier == "thorough" {
+		// the zero-annotation sweep has hundreds of sites that no solver decides: they get a third of the thorough limit
+		// (each still runs on every back end), the contract obligations the full limit
+		var sweep, rest []*Obligation
+		for _, o := range counted {
+			if o.Class == "panic" {
+				sweep = append(sweep, o)
+			} else {
+				rest = append(rest, o)
+			}
+		}
+		DischargeAll(rest, dir, timeout, 6)
+		DischargeAll(sweep, dir, timeout/3, 8)
+	} else {
+		DischargeAll(counted, dir, timeout, 6)
+	}
 	// an obligation the committed baseline lists as proved that only timed out (machine under load) is retried on
 	// its own with a longer limit before anything is concluded from it
 	{
